@@ -100,6 +100,7 @@ static int do_batch(int argc, char **argv) {
     double budget = atof(argv[7]);
     Progress *pg = map_progress(argc > 8 ? argv[8] : nullptr);
     const char *hashfile = argc > 9 ? argv[9] : nullptr;
+    bool print_hashes = getenv("CJSIM_PRINT_HASHES") != nullptr;
     auto t0 = std::chrono::steady_clock::now();
     auto elapsed = [&]() { return std::chrono::duration<double>(std::chrono::steady_clock::now() - t0).count(); };
     RunStats stats;
@@ -158,6 +159,7 @@ static int do_batch(int argc, char **argv) {
             RunResult rr = run_plan(p, log, stats, pg);
             pg->phase = 1;
             execs++;
+            if (print_hashes) printf("H %lld %lld %016llx %d\n", (long long)i, (long long)sub, (unsigned long long)log.hash, (int)rr.outcome.kind);
             evals += rr.evaluations;
             events += log.count;
             for (uint64_t h : stats.state_hashes) if (distinct.size() < 8000000) distinct.insert(h);
